@@ -18,6 +18,18 @@ CHECKS = {
         design="6.C03"),
 }
 
+CHECKS['C16'] = dict(
+    text="Coq theorems, unbounded in A, B, L: the loop of _compute_values equals the closed form (one point per A+i*L <= B, numbered "
+         "from 0 in order), lookup of a reference value succeeds exactly on printed points and returns the point's number, before/after "
+         "compare numbers which order like the points (ORDERING_OPERATOR and symbols generated from /repo), out-of-range values are "
+         "rejected. Clock text round trip (1440 cases) and CPython's ordinal<->date algorithm (one 400-year cycle by computation + "
+         "periodicity lemmas, whole datetime range) are proved. Tie: function-level correspondence with TemporalEntityComponent and "
+         "compile-level exact-text correspondence; oracle: independent (non-datetime) calendar arithmetic.",
+    note="Trusted: Coq kernel (vm_compute for the finite sweeps); CPython datetime modelled, validated by the function-level stream; "
+         "years < 1000 and length 0 are outside the model; hand model of convert_temporal_entity/temporal_constraint text.",
+    technique="Coq proof (induction over the loop, lia, finite sweeps lifted by range_check_sound) + function- and compile-level correspondence",
+    design="6.C16")
+
 NOT_YET = {}
 
 
